@@ -14,8 +14,11 @@ listeners.  A short request keeps the worker busy while one client connects
 to each listener (so that both are ready at the next select); each of these
 two requests takes 2.4 s < 3 s.
 """
+import os as _os
+_TREE_UNDER_TEST = _os.environ.get("GVERIF_REPO") or _os.getcwd()   # the checkout under test (was the auditing agent's scratch worktree)
+
 import sys
-sys.path.insert(0, "/tmp/wa_C11")
+sys.path.insert(0, _TREE_UNDER_TEST)
 
 import os
 import re
@@ -26,7 +29,7 @@ import tempfile
 import threading
 import time
 
-ROOT = "/tmp/wa_C11"
+ROOT = _TREE_UNDER_TEST
 TIMEOUT = 3
 REQ = 2.4            # duration of each request, shorter than the timeout
 
